@@ -177,6 +177,7 @@ pub fn def(tier: Tier) -> CheckDef {
             "a parenthesised group directly in the body position of a group is never generated (its scoping is not settled by the property)",
         ],
         idle_limit_s: 300,
+        needs_cli: false,
         parts: vec![
             Part {
                 name: "valid",
